@@ -30,6 +30,7 @@ func runC11(c *Ctx) {
 	r.Rule("C11.zeros-validated", "the zero count handed to the workers has passed the exit of a loop `for Pow(3, z)/float64(len(data)+8) < targetScore { z++ }`; the loop's left-hand side is Score's return expression with z for the measured zeros and len(data)+8 for len(msg)")
 	r.Rule("C11.lane-test", "checkStateTrits(l,h,n): v = OR_{i=243-n}^{242} (l[i]^h[i]); result = TrailingZeros(^v); the worker returns base+lane iff the result < 64; the worker panics for n > 243")
 	r.Rule("C11.nonce-layout", "Score and the worker both hash the message without its last 8 bytes with pow.Hash, b1t6-encode the digest at trit 0 and the little-endian 8-byte nonce at trit EncodedLen(len(digest)); lane i of a batch carries nonce base+i; the batch base advances by 64")
+	r.Rule("C11.result-flow", "a successful Mine returns a value received from a channel made by this call; the channel is only closed/received by Mine and sent to by Mine's goroutines; every sent value is the nonce returned by a call of the search routine on this call's digest variable (assigned once from pow.Hash(data))")
 	r.Rule("C11.score-term", "Score = math.Pow(3, zeros)/float64(len(msg)), zeros = trinary.TrailingZeros(Curl-P-81 squeeze of the 243-trit block)")
 	r.Assume("math.Pow(3, z) is non-decreasing in integer z; iota.go v1.0.0 bct.Curl (encoding l^h == 0 iff trit 0, checked on its `out` term), curl.NewCurlP81, b1t6.Encode, trinary.TrailingZeros")
 	r.NotDec("attainability of a target and the expected running time")
@@ -165,6 +166,8 @@ func runC11(c *Ctx) {
 		}
 	}
 
+	pureScan(c, "C11.pure.no-package-state", fn, sc.Function)
+
 	// ---- lane test
 	var search, lane *ssa.Function
 	for _, an := range fn.AnonFuncs {
@@ -179,6 +182,7 @@ func runC11(c *Ctx) {
 		return
 	}
 	r.Fn(ana.ShortFunc(search))
+	mineResultFlow(c, "C11", fn, search, "call<(hash.Hash).Sum>(obj(call<(crypto.Hash).New>(load(global<repo/pkg/pow.Hash>)), call<(hash.Hash).Write>(self, p2)), nil)")
 	sb := ana.NewBuilder(c.P, search)
 	for _, ce := range sb.CondEdges() {
 		if bd, ok := ana.Match("bin<<>(call<*>($l, $h, p3), "+WS+")", ce.Lit); ok && ce.Taken {
